@@ -1236,3 +1236,16 @@ def replay(ctx, data):
     d = data["data"]
     v, info = direct_check(d["case"], d["neighbour"], d.get("forced_seed", 1))
     return v is not None
+
+
+def generate(ctx):
+    """translator tie: the mechanism configurations of _mean/_var/_sum (sensitivity, lower, upper) and the per-cell epsilon
+    of _wrap_axis are re-read from /repo's AST on every run, translated to Lean terms over ℝ, and the generated file proves
+    that they ARE the calls of the model's plans (meanPlan_call, varPlan_call, sumPlan_call; harness/anchors.py)"""
+    from .. import anchors
+    from ..shim import REPO
+    r = anchors.build(REPO, "C07", ["DPL.Model.PlanTools"], anchors.c07_specs(), opens="", postlude=anchors.C07_POST)
+    ctx.count("formula_anchors", r["obligations"])
+    if r["errors"]:
+        r["error"] = "; ".join(r["errors"])
+    return r
